@@ -13,6 +13,7 @@ def main():
     path = sys.argv[1]
     with open(path) as fp:
         rec = json.load(fp)
+    os.environ["SX_REPLAY_TIER"] = rec.get("tier", "quick")       # the bounds of the run that produced the witness
     mod = importlib.import_module("checks." + rec["module"])
     reproduced, msg = mod.replay(rec["obligation"], rec["witness"])
     print(("REPRODUCED: " if reproduced else "not reproduced: ") + str(msg))
